@@ -117,21 +117,22 @@ def _param_name(rel, qual, k=0):
 def sniffer_contract(rel, fill=True):
     """docx / pptx / xlsx `_get_image_pixel_dimensions(image_data) -> (w | None, h | None)`."""
     ivar = _while_var(rel, "_get_image_pixel_dimensions") or "i"
+    pn = _param_name(rel, "_get_image_pixel_dimensions", 0) or pn     # parameter by position, not by name
     def jp(c):
-        return SP.Jpeg(_d(c, "image_data"), fill=fill)
+        return SP.Jpeg(_d(c, pn), fill=fill)
 
     def e_png(c):
-        d = _d(c, "image_data")
+        d = _d(c, pn)
         w, h = SP.png_size(d)
         return z3.Implies(SP.png_declares(d), result_is(c, w, h, True))
 
     def e_gif(c):
-        d = _d(c, "image_data")
+        d = _d(c, pn)
         w, h = SP.gif_size(d)
         return z3.Implies(SP.gif_declares(d), result_is(c, w, h, True))
 
     def e_bmp(c):
-        d = _d(c, "image_data")
+        d = _d(c, pn)
         w, h = SP.bmp_size(d)
         return z3.Implies(SP.bmp_declares(d), result_is(c, SP.zabs(w), SP.zabs(h), True))
 
@@ -141,11 +142,11 @@ def sniffer_contract(rel, fill=True):
         return z3.Implies(j.declares(), result_is(c, w, h, True))
 
     def e_none(c):
-        d = _d(c, "image_data")
+        d = _d(c, pn)
         return z3.Implies(z3.Not(SP.known_signature(d)), result_is_none(c))
 
     def inv(lc):
-        j = SP.Jpeg(SP.Data(*data_of(lc.entry.lookup("image_data"))), fill=fill)
+        j = SP.Jpeg(SP.Data(*data_of(lc.entry.lookup(pn))), fill=fill)
         i = ops.int_term(lc[ivar])
         two = z3.IntVal(2)
         lc.st.assume(j.defn(i))          # definitional instance of the chain at the current offset (spec function, not a claim)
@@ -153,7 +154,7 @@ def sniffer_contract(rel, fill=True):
 
     return FnContract(
         target=f"{rel}::_get_image_pixel_dimensions",
-        params=[("image_data", p_symbytes())],
+        params=[(pn, p_symbytes())],
         hyps=lambda c: jp(c).defn(z3.IntVal(2)),
         ensures=[("png-ihdr", e_png), ("gif-screen", e_gif), ("bmp-infoheader", e_bmp), ("jpeg-first-sof", e_jpeg),
                  ("no-known-signature-no-size", e_none), ("size-positive-or-none", result_positive_or_none)],
@@ -165,8 +166,12 @@ def sniffer_contract(rel, fill=True):
 
 def image_utils_contracts():
     ovar = _while_var(IMGU, "get_jpeg_dimensions") or "offset"
+    jn = _param_name(IMGU, "get_jpeg_dimensions", 0) or "data"
+    dn = _param_name(IMGU, "get_image_dimensions", 0) or "data"
+    tn = _param_name(IMGU, "get_image_dimensions", 1) or "image_type"
 
-    def jp(c, name="data"):
+    def jp(c, name=None):
+        name = name or (jn if jn in c.args else dn)
         return SP.Jpeg(_d(c, name))
 
     def hyps(c):
@@ -174,7 +179,7 @@ def image_utils_contracts():
         return z3.And(j.axiom(), j.tail_lemma())
 
     def inv(lc):
-        j = SP.Jpeg(SP.Data(*data_of(lc.entry.lookup("data"))))
+        j = SP.Jpeg(SP.Data(*data_of(lc.entry.lookup(jn))))
         o = ops.int_term(lc[ovar])
         two = z3.IntVal(2)
         lc.st.assume(z3.And(j.defn(o), j.tail_at(o)))   # definitional instance + proved tail lemma at the current offset
@@ -187,7 +192,7 @@ def image_utils_contracts():
 
     gj = FnContract(
         target=f"{IMGU}::get_jpeg_dimensions",
-        params=[("data", p_symbytes())],
+        params=[(jn, p_symbytes())],
         hyps=lambda c: jp(c).defn(z3.IntVal(2)),
         ensures=[("jpeg-first-sof", e_jpeg)],
         raises=[],
@@ -197,20 +202,20 @@ def image_utils_contracts():
     )
 
     def typ(c, *names):
-        return z3.Or([c.args["image_type"].t == z3.StringVal(n) for n in names])
+        return z3.Or([c.args[tn].t == z3.StringVal(n) for n in names])
 
     def g_png(c):
-        d = _d(c, "data")
+        d = _d(c, dn)
         w, h = SP.png_size(d)
         return z3.Implies(z3.And(typ(c, "png"), SP.png_declares(d)), result_is(c, w, h, False))
 
     def g_gif(c):
-        d = _d(c, "data")
+        d = _d(c, dn)
         w, h = SP.gif_size(d)
         return z3.Implies(z3.And(typ(c, "gif"), SP.gif_declares(d)), result_is(c, w, h, False))
 
     def g_bmp(c):
-        d = _d(c, "data")
+        d = _d(c, dn)
         w, h = SP.bmp_size(d)
         return z3.Implies(z3.And(typ(c, "bmp"), SP.bmp_declares(d), w > 0), result_is(c, w, SP.zabs(h), False))
 
@@ -224,7 +229,7 @@ def image_utils_contracts():
 
     gi = FnContract(
         target=f"{IMGU}::get_image_dimensions",
-        params=[("data", p_symbytes()), ("image_type", p_str())],
+        params=[(dn, p_symbytes()), (tn, p_str())],
         hyps=lambda c: jp(c).defn(z3.IntVal(2)),      # definitional instance of the chain at its start
         ensures=[("png-ihdr", g_png), ("gif-screen", g_gif), ("bmp-infoheader", g_bmp), ("jpeg-first-sof", g_jpeg),
                  ("unknown-type-no-size", g_other)],
@@ -253,10 +258,11 @@ def resolver_contract():
         lc.st.assume(prefix_ext(parts, lc.i))        # sequence lemma (seq_lemmas): parts[:i+1] == parts[:i] ++ [parts[i]]
         return resolved == SP.FOLD(z3.SubSeq(parts, 0, lc.i))
 
+    b0, t0 = _param_name(ZIPU, "resolve_part_name", 0) or "base_dir", _param_name(ZIPU, "resolve_part_name", 1) or "target"
     return FnContract(
         target=f"{ZIPU}::resolve_part_name",
-        params=[("base_dir", p_str()), ("target", p_str())],
-        returns=lambda c: VStr(SP.RESOLVE(c.args["base_dir"].t, c.args["target"].t)),
+        params=[(b0, p_str()), (t0, p_str())],
+        returns=lambda c: VStr(SP.RESOLVE(c.args[b0].t, c.args[t0].t)),
         raises=[],
         loops={0: LoopSpec(inv=inv, label="segment-fold")},
         note="OPC part-name resolution: absolute targets are package-root relative, '..' pops, '.' and empty segments are dropped",
@@ -266,15 +272,17 @@ def resolver_contract():
 def delegating_resolvers():
     """Format-level resolvers: their result must be RESOLVE(<directory of the source part>, target)."""
     out = []
+    b1, t1 = _param_name(PPTX, "_normalize_relative_path", 0) or "base_dir", _param_name(PPTX, "_normalize_relative_path", 1) or "target"
     out.append(FnContract(
         target=f"{PPTX}::_normalize_relative_path",
-        params=[("base_dir", p_str()), ("target", p_str())],
-        returns=lambda c: VStr(SP.RESOLVE(c.args["base_dir"].t, c.args["target"].t)),
+        params=[(b1, p_str()), (t1, p_str())],
+        returns=lambda c: VStr(SP.RESOLVE(c.args[b1].t, c.args[t1].t)),
         raises=[], note="pptx: relationship target against the slide directory"))
+    t2 = _param_name(XLSX, "_resolve_drawing_path", 0) or "target"
     out.append(FnContract(
         target=f"{XLSX}::_resolve_drawing_path",
-        params=[("target", p_str())],
-        returns=lambda c: VStr(SP.RESOLVE(z3.StringVal("xl/worksheets"), c.args["target"].t)),
+        params=[(t2, p_str())],
+        returns=lambda c: VStr(SP.RESOLVE(z3.StringVal("xl/worksheets"), c.args[t2].t)),
         raises=[], note="xlsx: sheet -> drawing relationship target; the source part is xl/worksheets/sheetN.xml"))
     return out
 
@@ -290,7 +298,7 @@ HREF_KEYS = ("_ATTR_XLINK_HREF", "href")
 
 # base: how the spec obtains the directory of the part that holds the reference
 SITES = [
-    dict(rel=PPTX, fn="_process_slide_from_context", sinks=("get_image_data",), keys=("target",), base=("dirname", "slide_path"), label="slide-image",
+    dict(rel=PPTX, fn="_process_slide_from_context", sinks=("get_image_data",), keys=("target",), base=("dirname", "@param:1"), label="slide-image",
          why="source part = the slide part `slide_path`"),
     dict(rel=DOCX, fn="_extract_images_from_context", sinks=("get_image_data",), keys=("target",), base=("const", "word"), label="document-image",
          why="source part = word/document.xml"),
@@ -338,6 +346,29 @@ def _arg_of_store_value(attr):
                 out.append((v.args[0], n))
         return out
     return find
+
+
+def _stores_in_relationship_loops(fn):
+    """values stored into a local table inside `for rel in parse_relationships(...)`: the resolved names of the relationship targets"""
+    from contracts.c14_flow import parent_map, ancestors
+    pm = parent_map(fn)
+    out = []
+    for n in ast.walk(fn):
+        if isinstance(n, ast.Assign) and len(n.targets) == 1 and isinstance(n.targets[0], ast.Subscript) and isinstance(n.targets[0].value, ast.Name):
+            if any(isinstance(a, ast.For) and isinstance(a.iter, ast.Call) and dotted(a.iter.func).split(".")[-1] == "parse_relationships" for a in ancestors(pm, n)):
+                out.append((n.value, n))
+    return sorted(out, key=lambda x: (x[1].lineno, x[1].col_offset))
+
+
+def _pptx_slide_rels(fn):
+    """`self._slide_rels_roots[<slide path>] = self.read_xml_root(E)`: sink E, owner = the name used as key"""
+    for n in ast.walk(fn):
+        if isinstance(n, ast.Assign) and len(n.targets) == 1 and isinstance(n.targets[0], ast.Subscript) and isinstance(n.targets[0].value, ast.Attribute) \
+                and "rels" in n.targets[0].value.attr and isinstance(n.targets[0].slice, ast.Name):
+            v = n.value
+            if isinstance(v, ast.Call) and isinstance(v.func, ast.Attribute) and v.func.attr == "read_xml_root" and v.args:
+                return [(v.args[0], n)], n.targets[0].slice.id
+    return [], None
 
 
 def _items_loops(fn):
@@ -398,11 +429,11 @@ SHEET_PART = z3.Function("xlsx_sheet_part_of_tab", z3.IntSort(), z3.StringSort()
 
 SITES += [
     # presentation -> slide relationship targets: lost slides lose their pictures
-    dict(rel=PPTX, fn="_PptxContext._compute_slide_order", sink=_stores_into("rels_map"), keys=("target",), base=("const", "ppt"), label="slide-part",
+    dict(rel=PPTX, fn="_PptxContext._compute_slide_order", sink=_stores_in_relationship_loops, keys=("target",), base=("const", "ppt"), label="slide-part",
          why="source part = ppt/presentation.xml"),
     # relationship part of a slide / a drawing / a sheet: <dir>/_rels/<name>.rels (OPC)
-    dict(rel=PPTX, fn="_PptxContext._load_xml_files", sink=_arg_of_store_value("_slide_rels_roots"), keys=("target",), need_target=False, extra=["slide_path"],
-         spec=lambda c: SP.RELS_PART(c.args["slide_path"].t), requires=_has_dir("slide_path"), label="slide-relationship-part",
+    dict(rel=PPTX, fn="_PptxContext._load_xml_files", dyn=_pptx_slide_rels, keys=("target",), need_target=False,
+         spec_of=lambda c, o: SP.RELS_PART(c.args[o].t), requires_of=_has_dir, label="slide-relationship-part",
          why="relationship part of the slide part"),
     dict(rel=XLSX, fn="_extract_images_from_zip", dyn=_xlsx_drawing_rels, keys=("target",), need_target=False,
          spec_of=lambda c, o: SP.RELS_PART(c.args[o].t), requires_of=_has_dir, label="drawing-relationship-part",
@@ -465,6 +496,12 @@ def run_site(site, repo, reg=None, uni=None):
     keys = site["keys"]
     for k, (sink_expr, call) in enumerate(sinks):
         oid = f"{base_id}-{k}" if len(sinks) > 1 else base_id
+        if site.get("base", ("",))[0] == "dirname" and site["base"][1].startswith("@param:"):
+            k = int(site["base"][1].split(":")[1])
+            if len(fn.args.args) <= k:
+                obls.append(ground_obligation(oid, False, "parameter holding the source part not found", rel, kind="resolution", definite=False))
+                continue
+            site = dict(site, base=("dirname", fn.args.args[k].arg))
         if site.get("base", ("",))[0] == "dirname" and site["base"][1] == "@items-loop-value":
             nm = next((lp.target.elts[1].id for (lp, _m) in _items_loops(fn) if isinstance(lp.target, ast.Tuple) and len(lp.target.elts) == 2
                        and isinstance(lp.target.elts[1], ast.Name)), None)
@@ -581,17 +618,52 @@ PDF = EX + "pdf/pdf_extractor.py"
 RASTER_CT = {"png": "image/png", "jpg": "image/jpeg", "jpeg": "image/jpeg", "gif": "image/gif", "bmp": "image/bmp"}
 
 
-def _append_of(ctor, numbered, num_kw):
-    """predicate: `<list>.append(<ctor>(...))` whose constructor call has / lacks the number keyword"""
+def _ctor_of_arg(ck, arg, at, ctor):
+    """The constructor call that produces the appended value: the argument itself or the unique definition of the name appended."""
+    from contracts.c14_flow import reaching
+    for _ in range(3):
+        if isinstance(arg, ast.Call) and isinstance(arg.func, ast.Name) and arg.func.id == ctor:
+            return arg
+        if isinstance(arg, ast.Name) and ck is not None:
+            b = reaching(ck.fn, ck.pm, arg.id, at)
+            if b is None or b.kind != "assign":
+                return None
+            arg, at = b.value, b.node
+            continue
+        return None
+    return None
+
+
+def _append_of(ctor, numbered, num_kw, ck=None):
+    """predicate: `<list>.append(v)` where v is `<ctor>(...)` (directly or through a local name) whose constructor call has / lacks the number keyword"""
     from contracts.c14_sites import kwv
 
     def pred(n):
         if not (isinstance(n, ast.Call) and isinstance(n.func, ast.Attribute) and n.func.attr == "append" and len(n.args) == 1):
             return False
-        a = n.args[0]
-        if not (isinstance(a, ast.Call) and isinstance(a.func, ast.Name) and a.func.id == ctor):
+        a = _ctor_of_arg(ck, n.args[0], n, ctor)
+        if a is None:
             return False
         return (kwv(a, num_kw) is not None) == numbered
+    return pred
+
+
+def _unfollowed_mutation(ctor, num_kw, ck):
+    """predicate: a change of the image list (the receiver of the recognised appends) that is not a recognised append"""
+    rec = set()
+    for n in ast.walk(ck.fn):
+        if (_append_of(ctor, True, num_kw, ck)(n) or _append_of(ctor, False, num_kw, ck)(n)) and isinstance(n.func.value, ast.Name):
+            rec.add(n.func.value.id)
+
+    def pred(n):
+        if isinstance(n, ast.Call) and isinstance(n.func, ast.Attribute) and isinstance(n.func.value, ast.Name) and n.func.value.id in rec:
+            if n.func.attr in ("extend", "insert", "pop", "remove", "clear", "__iadd__"):
+                return True
+            if n.func.attr == "append" and not (_append_of(ctor, True, num_kw, ck)(n) or _append_of(ctor, False, num_kw, ck)(n)):
+                return True
+        if isinstance(n, ast.AugAssign) and isinstance(n.target, ast.Name) and n.target.id in rec:
+            return True
+        return False
     return pred
 
 
@@ -615,7 +687,7 @@ def _common(ck, ctor, num_kw, payload_kw, reads, counter, sniff_total=True):
     if not numbered:
         ck.unknown("numbering", "one-increment-per-numbered-image", f"no {ctor}({num_kw}=...) construction found")
         return sites
-    ck.step_discipline(counter, _append_of(ctor, True, num_kw), _append_of(ctor, False, num_kw))
+    ck.step_discipline(counter, _append_of(ctor, True, num_kw, ck), _append_of(ctor, False, num_kw, ck), unfollowed=_unfollowed_mutation(ctor, num_kw, ck))
     ck.number_is_counter_after_increment(counter, numbered, num_kw)
     # (d) payload = value returned by the container read of the verified name, untransformed
     bad, n_ok = [], 0
@@ -679,7 +751,7 @@ def _single_traversal(ck, ctor, num_kw, label="single-document-order-traversal")
     (`X.iter(tag)`, `X.findall(..)`, a list built from those); a nest that repeats the traversal per anchor type / runs two
     traversals one after the other / walks the relationship table does not give document order."""
     from contracts import c14_sites as SI
-    apps = [n for n in ast.walk(ck.fn) if _append_of(ctor, True, num_kw)(n)]
+    apps = [n for n in ast.walk(ck.fn) if _append_of(ctor, True, num_kw, ck)(n)]
     if not apps:
         return ck.unknown("order", label, "no numbered append")
     nests = []
@@ -731,37 +803,78 @@ def _ct_table(ck, label="extension-table-has-the-raster-types"):
     ck.add("content-type", label, not wrong, f"{wrong}")
 
 
+def _names_the_part(ck, name, at, depth=0):
+    """`name` holds the relationship target / href / the name read from the container, or something cut out of it (file name):
+    decided by data flow, not by how the local is called."""
+    from contracts import c14_flow as F
+    if depth > 5:
+        return False
+    b = F.reaching(ck.fn, ck.pm, name, at)
+    if b is None:
+        return False
+    if b.kind in ("param",):
+        return any(k in name.lower() for k in ("target", "href", "path", "name"))     # helper parameter: only its name is left to go by
+    if b.kind not in ("assign", "walrus"):
+        return False
+    v = b.value
+    if F.is_lookup_of(v, ("target", "href", "_ATTR_XLINK_HREF")):
+        return True
+    reads = {a.id for c in F.method_calls(ck.fn, ("read_bytes", "get_image_data", "exists")) for a in c.args[:1] if isinstance(a, ast.Name)}
+    if name in reads:
+        return True
+    for n in ast.walk(v):
+        if isinstance(n, ast.Name) and isinstance(n.ctx, ast.Load) and n.id != name and (n.id in reads or _names_the_part(ck, n.id, b.node, depth + 1)):
+            return True
+    return False
+
+
+EXT_SHAPES = ("{n}.rsplit('.', 1)[-1].lower()", "{n}.lower().rsplit('.', 1)[-1]", "{n}.rpartition('.')[2].lower()", "{n}.rpartition('.')[-1].lower()",
+              "{n}.split('.')[-1].lower()", "{n}.lower().split('.')[-1]", "{n}.lower().rpartition('.')[2]", "{n}.lower().rpartition('.')[-1]")
+
+
 def _ct_from_extension(ck, sites, of_names, label="looked-up-by-the-lower-cased-extension"):
-    """content_type= is `_CONTENT_TYPE_MAP.get(ext, ...)` with ext = <name>.rsplit(".", 1)[-1].lower() (name in of_names),
-    or `_get_content_type(<name>)`."""
+    """content_type= is `_CONTENT_TYPE_MAP.get(ext, ...)` / `_CONTENT_TYPE_MAP[ext]` with ext = the lower-cased text after the last dot of
+    a name that (by data flow) holds the part name, or `_get_content_type(<such a name>)` / `guess_content_type(<such a name>)`.
+    Anything else is `unknown`: the native sweep of content types decides."""
     from contracts import c14_sites as SI
     from contracts.c14_flow import reaching
     bad, ok = [], 0
 
-    def ext_of(e):
+    def ext_of(e, at):
         s = ast.unparse(e).replace('"', "'")
-        for nm in of_names:
-            if s in (f"{nm}.rsplit('.', 1)[-1].lower()",):
+        for n in [x.id for x in ast.walk(e) if isinstance(x, ast.Name)]:
+            if any(s == sh.format(n=n) for sh in EXT_SHAPES) and _names_the_part(ck, n, at):
                 return True
         return False
+
+    def deref(v, at):
+        for _ in range(3):
+            if isinstance(v, ast.Name):
+                b = reaching(ck.fn, ck.pm, v.id, at)
+                if b is None or b.kind != "assign":
+                    return v, at
+                v, at = b.value, b.node
+            else:
+                break
+        return v, at
     for c in sites:
         v = SI.kwv(c, "content_type")
         if v is None:
             continue
-        if isinstance(v, ast.Name):
-            b = reaching(ck.fn, ck.pm, v.id, c)
-            v = b.value if b is not None and b.kind == "assign" else v
+        v, at = deref(v, c)
+        key = None
         if isinstance(v, ast.Call) and dotted(v.func) == "_CONTENT_TYPE_MAP.get" and v.args:
-            k = v.args[0]
-            if isinstance(k, ast.Name):
-                b = reaching(ck.fn, ck.pm, k.id, c)
-                k = b.value if b is not None and b.kind == "assign" else k
-            if ext_of(k):
+            key = v.args[0]
+        elif isinstance(v, ast.Subscript) and dotted(v.value) == "_CONTENT_TYPE_MAP":
+            key = v.slice
+        if key is not None:
+            k, kat = deref(key, at)
+            if ext_of(k, kat):
                 ok += 1
-                continue
-            bad.append(f"line {LN(c)}: key {ast.unparse(k)[:60]}")
-        elif isinstance(v, ast.Call) and dotted(v.func) in ("_get_content_type", "guess_content_type") and len(v.args) == 1 \
-                and isinstance(v.args[0], ast.Name) and v.args[0].id in of_names:
+            else:
+                bad.append(f"line {LN(c)}: key {ast.unparse(k)[:60]}")
+        elif isinstance(v, ast.Call) and dotted(v.func).split(".")[-1] in ("_get_content_type", "guess_content_type") and len(v.args) == 1 \
+                and isinstance(v.args[0], ast.Name) and _names_the_part(ck, v.args[0].id, at):
             ok += 1
         else:
             bad.append(f"line {LN(c)}: content_type={ast.unparse(v)[:60]}")
